@@ -234,6 +234,7 @@ func cmdCheck(args []string) {
 	var lines []string
 	total := 0
 	knownPrinted := map[string]bool{}
+	var proofLost []string
 	for _, r := range all {
 		n := 1
 		if r.Count > 1 {
@@ -254,6 +255,16 @@ func cmdCheck(args []string) {
 			knownSeen = append(knownSeen, r.Name)
 			total -= n // a recorded finding is reported separately, not as an (un)discharged obligation
 			byKind[r.Kind] -= n
+			continue
+		}
+		// The engine could not even generate conditions for the changed code (the contract's loop
+		// invariants name locals that no longer exist, a construct outside the subset appeared, a
+		// worker died). That is "undecided", not a refuted obligation: the verdict then rests on the
+		// bounded stand-ins of the property. If they all pass, the loss of the proof is reported
+		// (PROOF-LOST, evidence) but no violation is claimed; if one fails, both are reported.
+		if engineFailure(r.Name) && len(def.Harness) > 0 && len(harnessFail) == 0 {
+			proofLost = append(proofLost, r.Name)
+			lines = append(lines, fmt.Sprintf("PROOF-LOST: property=%s obligation=%s undecided (%s); verdict rests on the bounded stand-ins, which passed", def.ID, r.Name, clip(firstLine(strings.TrimSpace(r.Output)), 200)))
 			continue
 		}
 		violations++
@@ -324,6 +335,7 @@ func cmdCheck(args []string) {
 			"obligations":              total,
 			"discharged":               discharged,
 			"undecided":                total - discharged,
+			"proof_lost":               proofLost,
 			"functions_under_contract": funcsDone,
 			"by_kind":                  byKind,
 			"by_backend":               byBackend,
@@ -642,4 +654,16 @@ func levelOf(d *PropDef) string {
 		return d.Level
 	}
 	return "proof"
+}
+
+// engineFailure: obligation names that stand for "conditions could not be generated".
+func engineFailure(name string) bool {
+	return strings.HasSuffix(name, "/vcgen") || strings.HasSuffix(name, "/unwinding") || strings.HasSuffix(name, "/worker")
+}
+
+func clip(s string, n int) string {
+	if len(s) > n {
+		return s[:n]
+	}
+	return s
 }
